@@ -167,7 +167,25 @@ func (n *naiveRig) buildDirectoryEntries() ([]string, error) {
 	sort.Strings(out)
 	return out, nil
 }
-func (n *naiveRig) close()                  { os.RemoveAll(n.path) }
+func (n *naiveRig) close() { os.RemoveAll(n.path) }
+
+// outsideEntries lists what exists next to the build directory: every
+// case removes its own directory, so anything else was put there by the
+// code under test.
+func (n *naiveRig) outsideEntries() ([]string, error) {
+	es, err := os.ReadDir(filepath.Dir(n.path))
+	if err != nil {
+		return nil, err
+	}
+	var out []string
+	for _, e := range es {
+		if e.Name() != filepath.Base(n.path) {
+			out = append(out, e.Name())
+		}
+	}
+	sort.Strings(out)
+	return out, nil
+}
 func (n *naiveRig) filePool() pool.FilePool { return memPool{} }
 func (n *naiveRig) ioError() bool           { return false } // the naive build directory ignores the hooks
 
@@ -202,7 +220,7 @@ func dropSpecials(n *node) {
 	}
 }
 
-const executorRule = "rapid: same command and tree generators as hierarchy_model, driven through the real LocalBuildExecutor.Execute with hand-written fakes (build directory creator, runner, clock, CAS holding Action/Command/input root); the fake runner inspects the input root at the moment it is invoked and then performs the drawn action; in 1 case in 5 it then makes the build directory report a fatal I/O error through the logger installed with InstallHooks (mem: direct; virtual: a failing file-pool write) and either returns normally or as killed; the fake CAS refuses Put/Get on a context that is done; on the naive rig 1 non-empty file in 6 is rewritten in place between the digest pass and the upload pass. Oracle: escaping working directory or output path => response status INVALID_ARGUMENT, runner never invoked, input root holds exactly the declared input contents, no outputs reported; otherwise when the runner is invoked every dirname chain exists and nothing else was added to the input root, and the response's ActionResult equals the model (same comparison as hierarchy_model) -- also after an I/O error during the run: outputs that exist are still uploaded and listed. NON-TRIVIAL: rejected-with-inputs-present, or accepted with a '.', '..' or alias path AND (>= 2 parent directories created before the run OR an output directory with a repeated identical subdirectory); distinct by script hash"
+const executorRule = "rapid: same command and tree generators as hierarchy_model, driven through the real LocalBuildExecutor.Execute with hand-written fakes (build directory creator, runner, clock, CAS holding Action/Command/input root); the fake runner inspects the input root at the moment it is invoked and then performs the drawn action; in 1 case in 5 it then makes the build directory report a fatal I/O error through the logger installed with InstallHooks (mem: direct; virtual: a failing file-pool write) and either returns normally or as killed; the fake CAS refuses Put/Get on a context that is done; on the naive rig 1 non-empty file in 6 is rewritten in place between the digest pass and the upload pass. Oracle: escaping working directory or output path => response status INVALID_ARGUMENT, runner never invoked, input root holds exactly the declared input contents, no outputs reported; otherwise when the runner is invoked every dirname chain exists and nothing else was added to the input root, and the response's ActionResult equals the model (same comparison as hierarchy_model) -- also after an I/O error during the run: outputs that exist are still uploaded and listed; stdout and stderr are drawn independently from {empty, one line, two lines} (disjoint pools): stdout_digest / stderr_digest is set iff that stream is non-empty and names a CAS blob holding exactly that stream's bytes; after Execute the build directory holds nothing but root, tmp, server_logs, stdout, stderr (only root for a rejected command) and, on the real file system, nothing was created next to it. NON-TRIVIAL: rejected-with-inputs-present, or accepted with a '.', '..' or alias path AND (>= 2 parent directories created before the run OR an output directory with a repeated identical subdirectory); distinct by script hash"
 
 func TestC10LocalBuildExecutor(t *testing.T) {
 	rec := simkit.NewRecorder(t, "C10", "local_build_executor", executorRule)
@@ -264,9 +282,23 @@ func (v *virtualRig) runAction(want *node, stdout, stderr string) error {
 	logs.children["stderr"] = &node{kind: kFile, data: stderr}
 	return materialiseVirtual(v.w.top, logs)
 }
-func (v *virtualRig) buildDirectoryEntries() ([]string, error) { return nil, nil }
-func (v *virtualRig) close()                                   {}
-func (v *virtualRig) filePool() pool.FilePool                  { return v.pool }
+func (v *virtualRig) buildDirectoryEntries() ([]string, error) {
+	dirs, leaves, err := v.w.top.LookupAllChildren()
+	if err != nil {
+		return nil, err
+	}
+	var out []string
+	for _, e := range dirs {
+		out = append(out, e.Name.String())
+	}
+	for _, e := range leaves {
+		out = append(out, e.Name.String())
+	}
+	sort.Strings(out)
+	return out, nil
+}
+func (v *virtualRig) close()                  {}
+func (v *virtualRig) filePool() pool.FilePool { return v.pool }
 
 // ioError: the file pool behind the build directory fails a write, which
 // the pool-backed file reports through the installed error logger.
@@ -293,6 +325,29 @@ func TestC10LocalBuildExecutorVirtual(t *testing.T) {
 	})
 }
 
+// checkSurroundings lists the build directory (and, on a real file system,
+// its siblings) after Execute: only what Execute and the runner are
+// documented to create there may exist.
+func checkSurroundings(rig execRig, rejected, ran bool) error {
+	entries, err := rig.buildDirectoryEntries()
+	if err != nil {
+		return fmt.Errorf("VERIF-INCONCLUSIVE harness: cannot list the build directory: %v", err)
+	}
+	if err := checkBuildDirectoryEntries(entries, rejected, ran); err != nil {
+		return err
+	}
+	if ol, ok := rig.(outsideLister); ok {
+		outside, err := ol.outsideEntries()
+		if err != nil {
+			return fmt.Errorf("VERIF-INCONCLUSIVE harness: cannot list the surroundings of the build directory: %v", err)
+		}
+		if len(outside) > 0 {
+			return fmt.Errorf("entries %v were created next to the build directory", outside)
+		}
+	}
+	return nil
+}
+
 func runExecutorCase(rt *rapid.T, rec *simkit.Recorder, backend string, newRig func(*fakeCAS) (execRig, error)) {
 	ci := drawCommand(rt)
 	rc := refCommandOf(ci.workdir, ci.paths)
@@ -308,7 +363,11 @@ func runExecutorCase(rt *rapid.T, rec *simkit.Recorder, backend string, newRig f
 	dropSpecials(initial)
 	sc.Initial = initial.render()
 	exitCode := rapid.SampledFrom([]int{0, 0, 0, 1, 137}).Draw(rt, "exit_code")
-	stdout := rapid.SampledFrom([]string{"", "", "out\n"}).Draw(rt, "stdout")
+	// Both streams from {empty, one line, two lines}; the pools are disjoint
+	// so that swapped digests cannot go unnoticed.
+	stdout := rapid.SampledFrom(stdoutPool).Draw(rt, "stdout")
+	stderr := rapid.SampledFrom(stderrPool).Draw(rt, "stderr")
+	sc.Stdout, sc.Stderr = stdout, stderr
 	// An I/O error reported by the build directory while the command runs,
 	// after it produced its outputs; the runner is then killed (returns an
 	// error) or happens to finish first.
@@ -352,7 +411,7 @@ func runExecutorCase(rt *rapid.T, rec *simkit.Recorder, backend string, newRig f
 				rewritten = drawVolatile(rt, produced) > 0
 			}
 		}
-		if err := rig.runAction(produced, stdout, ""); err != nil {
+		if err := rig.runAction(produced, stdout, stderr); err != nil {
 			runFailure = fmt.Sprintf("VERIF-INCONCLUSIVE harness: cannot perform the action: %v", err)
 			return nil, fmt.Errorf("harness failure")
 		}
@@ -405,6 +464,9 @@ func runExecutorCase(rt *rapid.T, rec *simkit.Recorder, backend string, newRig f
 		if cur != nil && !equalTrees(cur, initial) {
 			rt.Fatalf("escaping command: the input root was touched: now %v; script=%+v", cur.render(), sc)
 		}
+		if err := checkSurroundings(rig, true, false); err != nil {
+			rt.Fatalf("escaping command: %v; script=%+v", err, sc)
+		}
 		if rc.workdirOK {
 			labels = append(labels, "rejected_output_path")
 		} else {
@@ -445,6 +507,9 @@ func runExecutorCase(rt *rapid.T, rec *simkit.Recorder, backend string, newRig f
 		}
 		if code == codes.OK {
 			rt.Fatalf("the runner was never invoked but the response is OK; script=%+v", sc)
+		}
+		if err := checkSurroundings(rig, false, false); err != nil {
+			rt.Fatalf("%v; script=%+v", err, sc)
 		}
 		labels = append(labels, "input_root_blocks_parent_directory", "not_run")
 		sc.Outcome = "not run: " + response.GetStatus().GetMessage()
@@ -512,13 +577,33 @@ func runExecutorCase(rt *rapid.T, rec *simkit.Recorder, backend string, newRig f
 		rt.Fatalf("exit code %d reported, runner returned %d; script=%+v", ar.ExitCode, exitCode, sc)
 	}
 	requireRDD := ci.format == remoteexecution.Command_DIRECTORY_ONLY || ci.format == remoteexecution.Command_TREE_AND_DIRECTORY
-	if err := checkActionResult(cas, ar, produced, ci.paths, rc.locs, requireRDD); err != nil {
+	if err := checkActionResult(cas, ar, produced, ci.paths, rc.locs, requireRDD, nil); err != nil {
 		rt.Fatalf("%v; script=%+v", err, sc)
 	}
 	if stdout != "" {
 		if err := checkFileDigest(cas, ar.StdoutDigest, stdout); err != nil {
 			rt.Fatalf("stdout: %v; script=%+v", err, sc)
 		}
+	}
+	// Digest set iff the stream is not empty, describing that stream's bytes.
+	if err := checkStream(cas, "stdout", ar.StdoutDigest, ar.StdoutRaw, stdout, false); err != nil {
+		rt.Fatalf("%v; script=%+v", err, sc)
+	}
+	if err := checkStream(cas, "stderr", ar.StderrDigest, ar.StderrRaw, stderr, false); err != nil {
+		rt.Fatalf("%v; script=%+v", err, sc)
+	}
+	// Nothing but the documented entries in (and around) the build directory.
+	if err := checkSurroundings(rig, false, true); err != nil {
+		rt.Fatalf("%v; script=%+v", err, sc)
+	}
+	if stdout != "" {
+		labels = append(labels, "stdout_nonempty")
+	}
+	if stderr != "" {
+		labels = append(labels, "stderr_nonempty")
+	}
+	if stdout != "" && stderr != "" {
+		labels = append(labels, "stdout_and_stderr_nonempty")
 	}
 	labels = append(labels, uf.labels()...)
 	if clobbered {
